@@ -21,7 +21,8 @@ static inline _Bool vstr_eq_cstr(const vstr* s, const char* c) {
   return eq;
 }
 
-struct Message { time_t m_lastUpdateTime, m_lastChangeTime; SymbolString m_lastSlaveData; };
+struct Cond;
+struct Message { time_t m_lastUpdateTime, m_lastChangeTime; SymbolString m_lastSlaveData; struct Cond* m_condition; time_t m_createTime, m_availableSinceTime; };
 #define RCAP 8
 struct rvec { unsigned e[RCAP]; size_t n; };
 static inline size_t rvec_size(const struct rvec* v) { return v->n; }
@@ -49,6 +50,7 @@ static inline _Bool vstr_eq_cstr_v(vstr s, const char* c) { return vstr_eq_cstr(
 static inline _Bool Cond_checkValue(struct Cond* self, struct Message* m, vstr field) { g_check_calls = g_check_calls + 1; return g_cur_match; }
 _Bool g_sub_true[CCAP]; unsigned g_sub_calls;
 static inline _Bool Cond_isTrue(struct Cond* c) { g_sub_calls = g_sub_calls + 1; size_t k = (size_t)c->m_lastCheckTime; return g_sub_true[k < CCAP ? k : 0]; }
+static inline time_t Cond_getLastCheckTime(const struct Cond* c) { return c->m_lastCheckTime; }
 #include "gen_funcs.inc"
 
 /* a field satisfies a request for (name or any, numeric or string) iff its kind matches and the name is absent or equal */
@@ -119,4 +121,20 @@ void h_combined(void) {
   for (size_t i = 0; i < CCAP; i++) { if (i < cc.m_conditions.n && !g_sub_true[i]) all = 0; }
   __CPROVER_assert(r == all, "[C13] a combined condition is true iff all its parts are true");
   if (r && cc.m_conditions.n == 3) { CANARY("three parts true"); }
+}
+
+/* a message is available iff it has no condition or its condition (simple or combined) is true - whatever the condition's check time is
+   (a combined condition never records one) */
+void h_available(void) {
+  struct Message m; struct Cond c; _Bool has = nondet_bool();
+  m.m_createTime = nondet_long(); m.m_availableSinceTime = nondet_long(); __CPROVER_assume(m.m_createTime > 0 && m.m_availableSinceTime >= 0);
+  size_t k = nondet_size(); __CPROVER_assume(k < CCAP); c.m_lastCheckTime = (time_t)k;       /* the stub of isTrue() reads the verdict slot from here; slot 0 = no check time recorded */
+  g_sub_true[k] = nondet_bool(); g_sub_calls = 0; m.m_condition = has ? &c : NULL;
+  _Bool r = Message_isAvailable(&m);
+  __CPROVER_assert(r == (!has || g_sub_true[k]), "[C13] a message is available iff it has no condition or its condition is true (also a combined condition, which records no check time)");
+  time_t since = Message_getAvailableSinceTime(&m);
+  __CPROVER_assert(has || since == m.m_createTime, "[C13] without condition a message is available since its creation");
+  __CPROVER_assert(!has || g_sub_true[k] || since == 0, "[C13] a message whose condition is false has no available-since time");
+  if (has && g_sub_true[k] && k == 0) { CANARY("true condition without check time"); }
+  if (has && !g_sub_true[k]) { CANARY("false condition"); }
 }
